@@ -9,6 +9,7 @@ use std::{
 use noodles_cram::verif as cv;
 use vnd::{Api, Doc, Enc, Field, Format, Opts, mutate};
 
+use crate::nest::{self, NestCase};
 use crate::pool::{Finding, Stages, Verdict};
 
 #[derive(Clone, Copy, Debug, PartialEq, Eq, Hash)]
@@ -83,6 +84,58 @@ impl Table {
 }
 
 pub const FIELD_SLOTS: u64 = mutate::MAX_FIELD_VALUES as u64;
+
+/// Numeral extremes: every decimal numeral token of a text document / text index is replaced by each of these.
+pub const NUMERALS: [&str; 22] = [
+    "0",
+    "1",
+    "32767",
+    "32769",
+    "65535",
+    "65537",
+    "2147483647",
+    "2147483648",
+    "4294967295",
+    "4294967296",
+    "9223372036854775807",
+    "9223372036854775808",
+    "18446744073709551615",
+    "18446744073709551616",
+    "99999999999999",
+    "1234567890123456789012345678901234567890",
+    "-1",
+    "-2147483648",
+    "-9223372036854775808",
+    "+5",
+    "05",
+    "",
+];
+
+/// Decimal numeral tokens of a text: maximal digit runs, with a leading `-` when that follows a delimiter.
+/// Returned as `(offset << 16) | length`.
+pub fn numeral_tokens(b: &[u8]) -> Vec<usize> {
+    let mut out = Vec::new();
+    let mut i = 0;
+    while i < b.len() {
+        if b[i].is_ascii_digit() {
+            let mut start = i;
+            if i > 0 && b[i - 1] == b'-' && (i == 1 || matches!(b[i - 2], b'\t' | b' ' | b',' | b';' | b':' | b'=' | b'\n' | b'|' | b'/')) {
+                start = i - 1;
+            }
+            let mut e = i;
+            while e < b.len() && b[e].is_ascii_digit() {
+                e += 1;
+            }
+            if e - start < 65536 {
+                out.push((start << 16) | (e - start));
+            }
+            i = e;
+        } else {
+            i += 1;
+        }
+    }
+    out
+}
 
 // ------------------------------------------------------------------------------------------ codecs
 
@@ -266,6 +319,8 @@ pub struct Plan {
     pub trunc: Table,
     pub subst: Table,
     pub fields: Table,
+    /// Numeral-extremes stage: `cuts` holds the tokens of the row's layer (see `numeral_tokens`).
+    pub nums: Table,
     /// Number of substitution values per byte.
     pub n_sub: u64,
     pub codecs: Vec<Codec>,
@@ -273,6 +328,9 @@ pub struct Plan {
     pub streams: Vec<ValidStream>,
     pub stream_starts: Vec<u64>,
     pub stream_total: u64,
+    /// Nesting-depth family (see nest.rs).
+    pub nest: Vec<NestCase>,
+    pub nest_target: nest::Targets,
 }
 
 pub const ST_TRUNC: u32 = 0;
@@ -280,6 +338,8 @@ pub const ST_SUBST: u32 = 1;
 pub const ST_FIELDS: u32 = 2;
 pub const ST_CODEC_ALL: u32 = 3;
 pub const ST_CODEC_MUT: u32 = 4;
+pub const ST_NEST: u32 = 5;
+pub const ST_NUM: u32 = 6;
 
 fn layer_len(d: &Doc, layer: Layer) -> usize {
     match layer {
@@ -325,6 +385,7 @@ impl Plan {
         let mut trunc = Vec::new();
         let mut subst = Vec::new();
         let mut fields = Vec::new();
+        let mut nums = Vec::new();
         for (i, d) in docs.iter().enumerate() {
             // documents with a single record larger than a BGZF block: truncations (within 64 bytes of member / record
             // boundaries and every 251st byte) and field mutations only
@@ -372,7 +433,7 @@ impl Plan {
                 continue;
             }
             let mut modes: Vec<Mode> = Api::all_for(d.format).iter().map(|a| Mode::Read(*a)).collect();
-            if matches!(d.format, Format::Bai | Format::Csi | Format::Tbi | Format::Crai) && d.index_of.is_some() && others[i].is_some() {
+            if matches!(d.format, Format::Bai | Format::Csi | Format::Tbi | Format::Crai | Format::Fai) && d.index_of.is_some() && others[i].is_some() {
                 modes.push(Mode::Query);
             }
             let text_gz = d.format == Format::Bgzf && d.set.ends_with(".gz");
@@ -398,6 +459,20 @@ impl Plan {
                         Layer::Outer => d.format.is_text(),
                         Layer::Inner => text_gz || matches!(d.format, Format::SamGz | Format::VcfGz | Format::Crai),
                     };
+                    // numeral extremes: text documents and text indexes (FASTA / FASTQ have no numeric fields); quick
+                    // skips the layout twins of a document (CRLF, no final newline, other member splits)
+                    let numeric_text = is_text && !matches!(d.format, Format::Fasta | Format::FastaIndexer | Format::Fastq) && d.set != "fasta.gz";
+                    let twin = ["crlf", "no-final-newline", "-split", "empty-members"].iter().any(|w| d.name.contains(w));
+                    if numeric_text && (thorough || !twin) {
+                        let base: &[u8] = match layer {
+                            Layer::Outer => &d.bytes,
+                            Layer::Inner => &d.inner.as_ref().unwrap().bytes,
+                        };
+                        let toks = numeral_tokens(base);
+                        if !toks.is_empty() {
+                            nums.push(Row { doc: i, layer, mode, n: toks.len() as u64 * NUMERALS.len() as u64, n_sub: 6, cuts: Some(Arc::new(toks)) });
+                        }
+                    }
                     let quick_ns = if is_text { 14 } else { 6 };
                     let ns = if thorough && (quick_names.contains(&d.name) || (d.equiv_of.is_none() && i >= n_corpus && is_text)) { 255 } else { quick_ns };
                     trunc.push(Row { doc: i, layer, mode, n: len, n_sub: ns, cuts: None });
@@ -437,7 +512,29 @@ impl Plan {
             stream_starts.push(t);
             t += s.bytes.len() as u64 * stream_n_sub(s, n_sub) + s.bytes.len() as u64;
         }
-        Self { thorough, docs, others, prep, trunc: Table::new(trunc), subst: Table::new(subst), fields: Table::new(fields), n_sub, codecs, max_len, streams, stream_starts, stream_total: t }
+        let nest_target = nest::Targets::find(&docs);
+        let mut nest_cases = Vec::new();
+        for entry in nest::Entry::ALL {
+            for leaf in [nest::Leaf::Cat, nest::Leaf::Order0] {
+                if leaf == nest::Leaf::Order0 && entry.single_leaf() {
+                    continue;
+                }
+                for &depth in &nest::depths(thorough) {
+                    for stack in nest::STACKS {
+                        nest_cases.push(NestCase { entry, leaf, depth, stack });
+                    }
+                }
+            }
+        }
+        if thorough {
+            // time amplification (thorough only: the hang deadline and its confirmation cost ~7 s per class):
+            // 1000 levels (4 KB of input) around 16 MiB of zero bytes
+            for entry in [nest::Entry::RansNx16, nest::Entry::Aac] {
+                nest_cases.push(NestCase { entry, leaf: nest::Leaf::Zeros, depth: 1, stack: 8 << 20 });
+                nest_cases.push(NestCase { entry, leaf: nest::Leaf::Zeros, depth: 1_000, stack: 8 << 20 });
+            }
+        }
+        Self { thorough, docs, others, prep, trunc: Table::new(trunc), subst: Table::new(subst), fields: Table::new(fields), nums: Table::new(nums), n_sub, codecs, max_len, streams, stream_starts, stream_total: t, nest: nest_cases, nest_target }
     }
 
     fn strings_total(&self) -> u64 {
@@ -532,6 +629,41 @@ impl Plan {
                 };
                 let v = self.sub_value(orig, j, row.n_sub)?;
                 Some((row, self.patched(row, off, &[v]), format!("byte {off}: {orig:#04x} -> {v:#04x}")))
+            }
+            ST_NUM => {
+                let (row, r) = self.nums.locate(case);
+                let d = &self.docs[row.doc];
+                let nv = NUMERALS.len() as u64;
+                let tok = row.cuts.as_ref()?[(r / nv) as usize];
+                let (off, len) = (tok >> 16, tok & 0xffff);
+                let v = NUMERALS[(r % nv) as usize];
+                let base: &[u8] = match row.layer {
+                    Layer::Outer => &d.bytes,
+                    Layer::Inner => &d.inner.as_ref().unwrap().bytes,
+                };
+                let old = &base[off..off + len];
+                if old == v.as_bytes() {
+                    return None;
+                }
+                let mut spliced = Vec::with_capacity(base.len() + v.len());
+                spliced.extend_from_slice(&base[..off]);
+                spliced.extend_from_slice(v.as_bytes());
+                spliced.extend_from_slice(&base[off + len..]);
+                let ls = base[..off].iter().rposition(|&c| c == b'\n').map(|p| p + 1).unwrap_or(0);
+                let what = format!(
+                    "numeral {:?} at {off} (line {:?}, column {}) -> {v:?}",
+                    String::from_utf8_lossy(old),
+                    String::from_utf8_lossy(&base[ls..(ls + 40).min(base.len())]).split('\n').next().unwrap_or(""),
+                    base[ls..off].iter().filter(|&&c| c == b'\t').count() + 1
+                );
+                let bytes = match row.layer {
+                    Layer::Outer => spliced,
+                    Layer::Inner => match &self.prep[row.doc] {
+                        Some(p) => p.rebuilt(&spliced),
+                        None => mutate::gzip(&spliced),
+                    },
+                };
+                Some((row, bytes, what))
             }
             ST_FIELDS => {
                 let (row, r) = self.fields.locate(case);
@@ -660,13 +792,19 @@ pub fn payload_doc(format: Format, set: &str, mode: Mode, bed_n: usize, raw: boo
 
 impl Stages for Plan {
     fn n_stages(&self) -> u32 {
-        5
+        7
+    }
+    fn order(&self) -> Vec<u32> {
+        // the (small) nesting stage first: a time cap must not cut it
+        vec![ST_NEST, ST_NUM, ST_TRUNC, ST_SUBST, ST_FIELDS, ST_CODEC_ALL, ST_CODEC_MUT]
     }
     fn stage_name(&self, stage: u32) -> String {
-        ["truncations", "substitutions", "fields", "codec_strings", "codec_streams"][stage as usize].to_string()
+        ["truncations", "substitutions", "fields", "codec_strings", "codec_streams", "nesting", "numerals"][stage as usize].to_string()
     }
     fn stage_len(&self, stage: u32) -> u64 {
         match stage {
+            ST_NEST => self.nest.len() as u64,
+            ST_NUM => self.nums.total,
             ST_TRUNC => self.trunc.total,
             ST_SUBST => self.subst.total,
             ST_FIELDS => self.fields.total,
@@ -676,7 +814,33 @@ impl Stages for Plan {
     }
 
     fn run(&self, stage: u32, case: u64) -> Verdict {
-        if stage >= ST_CODEC_ALL {
+        if stage == ST_NEST {
+            let c = &self.nest[case as usize];
+            let out = nest::run(c, &self.nest_target, || crate::pool::arm(true));
+            let viol = |fp: &str, expected: &str, observed: String| {
+                let (decoded, payload) = nest::describe(c, &self.nest_target);
+                Verdict::Violation(Finding { fingerprint: format!("{} {fp}", c.fp()), decoded, expected: expected.into(), observed, payload, stage, case })
+            };
+            let mut h = std::collections::hash_map::DefaultHasher::new();
+            return match out {
+                nest::Out::Ok => {
+                    (c.entry, c.leaf, true, c.depth.min(4)).hash(&mut h);
+                    Verdict::Fine { class: h.finish(), ok: true }
+                }
+                nest::Out::Err(e) if c.depth > 3 || !c.entry.has_payload() => {
+                    (c.entry, c.leaf, false, norm_msg(&e)).hash(&mut h);
+                    Verdict::Fine { class: h.finish(), ok: false }
+                }
+                nest::Out::Err(e) => viol("outcome=shallow-nesting-rejected", "the payload (a stripe chunk is a complete stream; depth <= 3)", format!("Err({e})")),
+                nest::Out::Wrong(w) => viol("outcome=wrong-output", "the payload, or an io::Error", w),
+                nest::Out::Panic(msg, file) => {
+                    let file = crate::pool::norm_file(&file);
+                    viol(&format!("outcome=panic msg={} file={file}", vmc::normalise_msg(&msg)), "Ok or io::Error", format!("panic: {msg} in {file}"))
+                }
+                nest::Out::NoInput => Verdict::Trivial,
+            };
+        }
+        if matches!(stage, ST_CODEC_ALL | ST_CODEC_MUT) {
             let (codec, bytes, _) = self.codec_case(stage, case);
             let r = codec.decode(&bytes);
             let mut h = std::collections::hash_map::DefaultHasher::new();
@@ -704,7 +868,11 @@ impl Stages for Plan {
     }
 
     fn describe(&self, stage: u32, case: u64) -> (String, String, String) {
-        if stage >= ST_CODEC_ALL {
+        if stage == ST_NEST {
+            let (decoded, payload) = nest::describe(&self.nest[case as usize], &self.nest_target);
+            return (decoded, String::new(), payload);
+        }
+        if matches!(stage, ST_CODEC_ALL | ST_CODEC_MUT) {
             let (codec, bytes, what) = self.codec_case(stage, case);
             let payload = vmc::json!({"kind": "codec", "codec": codec.name(), "input_hex": to_hex(&bytes)}).to_string();
             return (format!("noodles_cram::verif::{}_decode(&hex!(\"{}\")) — {what}", codec.name(), to_hex(&bytes)), String::new(), payload);
@@ -719,13 +887,17 @@ impl Stages for Plan {
     }
 
     fn fp_prefix(&self, stage: u32, case: u64) -> String {
-        if stage >= ST_CODEC_ALL {
+        if stage == ST_NEST {
+            return self.nest[case as usize].fp();
+        }
+        if matches!(stage, ST_CODEC_ALL | ST_CODEC_MUT) {
             let (codec, _, _) = self.codec_case(stage, case);
             return format!("format=cram-codec entry={}_decode", codec.family());
         }
         let row = match stage {
             ST_TRUNC => self.trunc.locate(case).0,
             ST_SUBST => self.subst.locate(case).0,
+            ST_NUM => self.nums.locate(case).0,
             _ => self.fields.locate(case).0,
         };
         let d = &self.docs[row.doc];
